@@ -117,6 +117,25 @@ CLAIMS = {
              'the SINGLE_INSTANCE / SINGLE_NODE selection structure (R4).',
         technique='tolerant extraction of selection specs (sorted key / index) vs frozen spec + argument provenance (ast)',
         design='4/C14'),
+    'C05': dict(
+        text='That every real duplicate is seen and that the conciliation loop closes is NOT decided (needs events). '
+             'Decided for every path: the conflict scan is restricted to managed applications in both sibling functions '
+             '(R1); CONCILIATION is entered / left exactly under (idle, conflicting) / (idle, not conflicting), else '
+             're-conciliated (R2); strategy dispatch table and arguments (R3); effect summary of each of the 6 strategy '
+             'classes: USER reaches nothing, the others act only on the conflicting process of the iteration, kept copy '
+             '= min/max uptime, all copies for STOP/RESTART/RUNNING_FAILURE, one deferred trigger (R4); stop targets '
+             'and de-duplication by name and identifier (R5).',
+        technique='return-path facts + dispatch table + per-class effect summary over the call graph (ast)',
+        design='4/C05'),
+    'C06': dict(
+        text='The end-to-end effect (exactly one copy running again) is NOT decided. Decided for every path: failure '
+             'sinks are reachable from Supervisor callbacks only through is_master() guarded calls (R1); the 6 strategies '
+             'are all dispatched, crash vs instance-loss entry points (R2); the precedence matrix read from the AST: '
+             'each adder yields to every higher set and evicts from every lower set, exact promotion condition (R3); '
+             'single owners of the job sets (R4); deferral while the application has jobs, trigger effects, order and '
+             'periodic trigger (R5); planned jobs win and lost processes accumulate over all failed instances (R6).',
+        technique='guarded reachability over the call graph + guard/eviction matrix extraction + who-may-write (ast)',
+        design='4/C06'),
 }
 
 PENDING_REASON = 'check not implemented yet in this revision (static rules designed in DESIGN.md section 4)'
